@@ -31,17 +31,24 @@ CANARIES = [
     ("swv-stride-no-dilation", "c16_swv", "nnet/layers/utils.py", "    win_stride[-len(step) :] *= dilation\n", "", r"C16\.swv.*strides"),
     ("swv-window-fit-ge", "c16_swv", "nnet/layers/utils.py", "if any(i > j for i, j in zip(window_shape[::-1], arr.shape[::-1])):", "if any(i >= j for i, j in zip(window_shape[::-1], arr.shape[::-1])):", r"C16\.swv.*raises_only_if_rejected"),
     ("swv-no-contig", "c16_swv", "nnet/layers/utils.py", "    if not arr.flags[\"C_CONTIGUOUS\"]:\n        arr = np.ascontiguousarray(arr)\n", "", r"C16\.swv.*contiguous_before_striding"),
-    ("swv-step-zero-ok", "c16_swv", "nnet/layers/utils.py", "if not all(isinstance(i, Integral) and i > 0 for i in step):", "if not all(isinstance(i, Integral) and i >= 0 for i in step):", r"C16\.swv.*returns_only_if_accepted"),
+    ("swv-step-zero-ok", "c16_swv", "nnet/layers/utils.py", "if not all(isinstance(i, Integral) and i > 0 for i in step):", "if not all(isinstance(i, Integral) and i >= 0 for i in step):", r"C16\.swv.*(returns_only_if_accepted|raise_kind)"),
     ("step-assign-not-accumulate", "c01_step", "operation_base.py", "                var._grad += backed_grad", "                var._grad = backed_grad", r"inv_step\.(C01\.acc|C12\.OWNG)"),
-    ("step-no-copy-of-grad", "c01_step", "operation_base.py", "if backed_grad.base is not None or (backed_grad is grad)", "if backed_grad.base is not None", r"inv_step\.C12\.OWNG\.not_incoming_grad"),
-    ("step-no-copy-of-view", "c01_step", "operation_base.py", "if backed_grad.base is not None or (backed_grad is grad)", "if (backed_grad is grad)", r"inv_step\.C12\.OWNG\.owner"),
     ("step-constants-get-grad", "c01_step", "operation_base.py", "            if var.constant:\n                continue\n", "", r"inv_step\.(C10\.constants_untouched|C01\.has)|C09\.raise"),
     ("step-no-cleared-check", "c01_step", "operation_base.py", "            if not var._ops:\n", "            if False:\n", r"C09\.raise\.no_silent_pass"),
-    ("step-no-dtype-cast", "c01_step", "operation_base.py", "                if backed_grad.dtype != var.dtype:\n                    backed_grad = backed_grad.astype(var.dtype, copy=False)\n", "", r"inv_step\.C14\.I1\.dtype"),
+    ("step-no-copy-of-grad", "c01_step", "operation_base.py", "                    or (backed_grad is grad)\n", "", r"inv_step\.C12\.OWNG\.not_incoming_grad"),
+    ("step-no-copy-of-view", "c01_step", "operation_base.py", "                    backed_grad.base is not None\n                    or (backed_grad is grad)", "                    (backed_grad is grad)", r"inv_step\.C12\.OWNG\.owner"),
+    ("step-no-dtype-cast", "c01_step", "operation_base.py", "                    or backed_grad.dtype != var.dtype\n", "", r"inv_step\.C14\.I1\.dtype"),
+    ("step-no-layout", "c01_step", "operation_base.py", "                    or backed_grad.strides != var.data.strides\n", "", r"inv_step\.C06\.I1prime\.layout"),
     ("step-where-dropped", "c01_step", "operation_base.py", "            if self.where is not True:\n                backed_grad = backed_grad * self.where\n", "", r"\[?.*inv_step\.C01\.acc"),
     ("step-no-post-process", "c01_step", "operation_base.py", "            backed_grad = self.grad_post_process_fn(backed_grad, var.shape)\n", "", r"inv_step\.(C14\.I1\.shape|C01\.acc)|no_other_exception"),
     ("step-wrong-index", "c01_step", "operation_base.py", "backed_grad = self.backward_var(grad, index, **kwargs)", "backed_grad = self.backward_var(grad, 0, **kwargs)", r"backward_var_receives_index"),
     ("step-skip-swallows-all", "c01_step", "operation_base.py", "            except SkipGradient:\n                continue", "            except Exception:\n                continue", None),
+    ("topo-append-right", "c01_topo", "_utils/__init__.py", "    topo_sorted_tensors.appendleft(t)", "    topo_sorted_tensors.append(t)", r"C01\.topo\.post\.(new_left_of_old|topo)|inv_step"),
+    ("topo-no-seen-test", "c01_topo", "_utils/__init__.py", "    if id_ in seen:\n        return\n", "", r"C01\.topo\.post\.(old_positions_kept|distinct)"),
+    ("topo-into-constants", "c01_topo", "_utils/__init__.py", "    if t.constant:\n        return\n", "", r"C01\.topo\.(post|callee_requires)\.members_nonconstant|new_members"),
+    ("topo-no-nulling", "c01_topo", "_utils/__init__.py", "    t._view_grad = None\n    t._grad = None\n", "    t._view_grad = None\n", r"receiver_grads_none|C07\.null"),
+    ("topo-skip-leaf-inputs", "c01_topo", "_utils/__init__.py", "            collect_all_tensors_and_clear_grads(t_loop, seen, topo_sorted_tensors)", "            if t_loop.creator is not None:\n                collect_all_tensors_and_clear_grads(t_loop, seen, topo_sorted_tensors)", r"inputs_done|closed"),
+    ("topo-seen-before-recursion", "c01_topo", "_utils/__init__.py", "    _marked.remove(id_)\n    seen.add(id_)\n    topo_sorted_tensors.appendleft(t)", "    _marked.remove(id_)\n    topo_sorted_tensors.appendleft(t)", r"C01\.topo\.post\.(receiver_member|seen_grows|closed)"),
     ("ctx-exit-no-dec", "c15_ctx", "_utils/__init__.py", "        self._depth -= 1\n        self.state = self._depth_tracker.pop(self._depth)", "        self.state = self._depth_tracker.pop(self._depth - 1)", r"C15\.ctx\..*__exit__\.depth"),
     ("ctx-enter-order", "c15_ctx", "_utils/__init__.py", "        self._depth_tracker[self._depth] = self.state\n        self._depth += 1\n        self.state = self._enter_set_value", "        self._depth += 1\n        self.state = self._enter_set_value\n        self._depth_tracker[self._depth - 1] = self.state", r"C15\.ctx\..*__enter__\.saved"),
     ("ctx-exit-swallow", "c15_ctx", "_utils/__init__.py", "        self.state = self._depth_tracker.pop(self._depth)\n", "        self.state = self._depth_tracker.pop(self._depth)\n        return True\n", r"C15\.ctx\..*(returns_falsy|exception_propagates)"),
@@ -59,7 +66,7 @@ def run_contract_module(modname, repo_root, timeout=600):
         "m = importlib.import_module('contracts.%s')\n"
         "obls, info = m.obligations('quick')\n"
         "res = solve.discharge(obls, timeout_ms=20000)\n"
-        "print(json.dumps(dict(status={r.name: r.status for r in res}, unsupported=info['unsupported'])))\n"
+        "print(json.dumps(dict(status=[[r.name, r.status] for r in res], unsupported=info['unsupported'])))\n"
     ) % (HERE, modname)
     env = dict(os.environ, MYGRAD_REPO=repo_root)
     p = subprocess.run([sys.executable, "-c", code], capture_output=True, text=True, env=env, timeout=timeout)
@@ -91,7 +98,7 @@ def run_canaries(only_modules=None, ids=None):
             open(path, "w").write(src.replace(old, new, 1))
             try:
                 r = run_contract_module(modname, root)
-                red = [n for n, s in r["status"].items() if s != "discharged"]
+                red = [n for n, s in r["status"] if s != "discharged"]
                 red_unsup = r["unsupported"]
                 if expect is None:
                     out.append(dict(id=cid, killed=(not red), expected="stays green (harmless edit)", red=red[:5]))
